@@ -222,33 +222,50 @@ def StrEnc.calculateSize (e : StrEnc) (items : Items) : Except Err Int := do
   toInt v
 
 /-- `StringDataEncoding._get_raw_buffer` -/
-def StrEnc.rawBuffer (e : StrEnc) (p : Pkt) : Except Err (Bytes × Raw) := do
-  let buflen ← e.calculateSize p.items
-  let pad := (8 - (buflen % 8)) % 8            -- Python `%` on ints: result in 0..7
-  let nbytes := (buflen + pad) / 8
-  let (v, raw') ← liftBit (readAsInt p.raw buflen)
-  pure (toBytesBE nbytes.toNat (v <<< pad.toNat), raw')
+def StrEnc.rawBuffer (e : StrEnc) (p : Pkt) : Except Err (Bytes × Raw) :=
+  match e.calculateSize p.items with
+  | .error err => .error err
+  | .ok buflen =>
+    let pad := (8 - (buflen % 8)) % 8            -- Python `%` on ints: result in 0..7
+    let nbytes := (buflen + pad) / 8
+    match liftBit (readAsInt p.raw buflen) with
+    | .error err => .error err
+    | .ok (v, raw') => .ok (toBytesBE nbytes.toNat (v <<< pad.toNat), raw')
+
+def decodeOrErr (enc : String) (bs : Bytes) : Except Err String :=
+  match decodeText enc bs with
+  | some s => .ok s
+  | none => .error .value                     -- UnicodeDecodeError is a ValueError
+
+/-- The three ways of delimiting the text inside the raw buffer (second half of `parse_value`). -/
+def StrEnc.extractText (e : StrEnc) (buf : Bytes) : Except Err String :=
+  if optTruthy e.leadingSize then
+    match liftBit (readAsInt ⟨buf, 0⟩ (e.leadingSize.getD 0)) with
+    | .error err => .error err
+    | .ok (strlen, r1) =>
+      if strlen % 8 ≠ 0 then .error .value
+      else
+        match liftBit (readAsBytes r1 strlen) with
+        | .error err => .error err
+        | .ok (bs, _) => decodeOrErr e.encoding bs
+  else match e.termChar with
+    | some t =>
+      match bytesIndex buf t with
+      | none => .error .value
+      | some i =>
+        match liftBit (readAsBytes ⟨buf, 0⟩ ((i : Int) * 8)) with
+        | .error err => .error err
+        | .ok (bs, _) => decodeOrErr e.encoding bs
+    | none => decodeOrErr e.encoding buf
 
 /-- `StringDataEncoding.parse_value` -/
-def StrEnc.parseValue (e : StrEnc) (p : Pkt) : Except Err (Param × Raw) := do
-  let (buf, raw') ← e.rawBuffer p
-  let dec := fun (bs : Bytes) => match decodeText e.encoding bs with
-    | some s => Except.ok s
-    | none => Except.error Err.value           -- UnicodeDecodeError is a ValueError
-  let text ← if optTruthy e.leadingSize then do
-      let (strlen, r1) ← liftBit (readAsInt ⟨buf, 0⟩ (e.leadingSize.getD 0))
-      if strlen % 8 ≠ 0 then throw Err.value
-      let (bs, _) ← liftBit (readAsBytes r1 strlen)
-      dec bs
-    else match e.termChar with
-      | some t =>
-        match bytesIndex buf t with
-        | none => throw Err.value
-        | some i => do
-          let (bs, _) ← liftBit (readAsBytes ⟨buf, 0⟩ ((i : Int) * 8))
-          dec bs
-      | none => dec buf
-  pure (mkParam .StrP (.str text) (some (.bytes buf)), raw')
+def StrEnc.parseValue (e : StrEnc) (p : Pkt) : Except Err (Param × Raw) :=
+  match e.rawBuffer p with
+  | .error err => .error err
+  | .ok (buf, raw') =>
+    match e.extractText buf with
+    | .error err => .error err
+    | .ok text => .ok (mkParam .StrP (.str text) (some (.bytes buf)), raw')
 
 structure BinEnc where
   fixedSize : Option Int
@@ -272,10 +289,13 @@ def BinEnc.calculateSize (e : BinEnc) (items : Items) : Except Err Int := do
   toInt v
 
 /-- `BinaryDataEncoding.parse_value` -/
-def BinEnc.parseValue (e : BinEnc) (p : Pkt) : Except Err (Param × Raw) := do
-  let n ← e.calculateSize p.items
-  let (bs, raw') ← liftBit (readAsBytes p.raw n)
-  pure (mkParam .BinP (.bytes bs), raw')
+def BinEnc.parseValue (e : BinEnc) (p : Pkt) : Except Err (Param × Raw) :=
+  match e.calculateSize p.items with
+  | .error err => .error err
+  | .ok n =>
+    match liftBit (readAsBytes p.raw n) with
+    | .error err => .error err
+    | .ok (bs, raw') => .ok (mkParam .BinP (.bytes bs), raw')
 
 inductive Encoding
   | num (e : NumEnc)
